@@ -619,4 +619,75 @@ pub mod verif_hooks {
             successful: buffer.successful,
         }
     }
+
+    /// HB_BUFFER_SCRATCH_FLAG_HAS_VARIATION_SELECTOR_FALLBACK
+    pub const FLAG_VS_FALLBACK: u32 = HB_BUFFER_SCRATCH_FLAG_HAS_VARIATION_SELECTOR_FALLBACK;
+
+    /// `normalize` with `buffer.not_found_variation_selector` set to `not_found_vs` (the clusters that
+    /// contain a variation selector consult it, and the face's cmap format 14 subtable).
+    pub fn normalize_vs(
+        face: &hb_font_t,
+        mode: usize,
+        level: u32,
+        invisible: Option<u16>,
+        not_found_vs: Option<u32>,
+        text: &[(u32, u32, u32)],
+    ) -> Outcome {
+        let mut plan = hb_ot_shape_plan_t::new(
+            face,
+            crate::hb::Direction::LeftToRight,
+            None,
+            None,
+            &[],
+        );
+        plan.shaper = &SHAPERS[mode];
+
+        let mut buffer = hb_buffer_t::new();
+        for &(cp, cluster, mask) in text {
+            buffer.info.push(hb_glyph_info_t {
+                glyph_id: cp,
+                mask,
+                cluster,
+                var1: 0,
+                var2: 0,
+            });
+            buffer.pos.push(GlyphPosition::default());
+        }
+        buffer.len = text.len();
+        buffer.cluster_level = level;
+        buffer.invisible = invisible.map(ttf_parser::GlyphId);
+        buffer.not_found_variation_selector = not_found_vs;
+        buffer.enter();
+
+        let mut flags = buffer.scratch_flags;
+        for info in &mut buffer.info {
+            info.init_unicode_props(&mut flags);
+        }
+        buffer.scratch_flags = flags;
+
+        _hb_ot_shape_normalize(&plan, &mut buffer, face);
+
+        let recs = buffer.info[..buffer.len]
+            .iter()
+            .map(|i| Rec {
+                cp: i.glyph_id,
+                mask: i.mask,
+                cluster: i.cluster,
+                gidx: i.var1,
+                props: i.unicode_props(),
+                is_mark: _hb_glyph_info_is_unicode_mark(i),
+                is_space: _hb_glyph_info_is_unicode_space(i),
+            })
+            .collect();
+        Outcome {
+            recs,
+            scratch_flags: buffer.scratch_flags,
+            successful: buffer.successful,
+        }
+    }
+
+    /// `hb_font_t::glyph_variation_index` (cmap format 14 through ttf-parser)
+    pub fn glyph_variation_index(face: &hb_font_t, c: char, vs: char) -> Option<u16> {
+        face.glyph_variation_index(c, vs).map(|g| g.0)
+    }
 }
